@@ -10,6 +10,7 @@ REGISTRY = {
     "C10": ("harness.checks.mesh_checks", "C10"),
     "C06": ("harness.checks.dorfler_check", "C06"),
     "C19": ("harness.checks.grade_check", "C19"),
+    "C16": ("harness.checks.quad_check", "C16"),
 }
 
 
